@@ -68,6 +68,11 @@ def run(ck, rng, tier):
         dist = rng.choice(("gauss", "exp", "int"))
         sc = rng.sample(range(-5 * n, 5 * n), n) if dist == "int" else None
         scores = [float(sc[i]) if sc else (rng.gauss(lab[i], 1.0) if dist == "gauss" else rng.expovariate(1.0) * (1 + lab[i])) for i in range(n)]
+        if c in (6, 7, 8):
+            # a score equal (or next) to the missing-value code: the code only has a meaning in the TRUTH vector, a score
+            # of 99999999 is an ordinary (the largest) score and its object counts like any other
+            scores[rng.randrange(n)] = MISSING + (0.0, 0.05, -0.08)[c - 6]
+            ck.count("roc score next to the missing-value code")
         if len(set(scores)) != n:
             continue
         kind = rng.choice(("plain", "monotone", "perm", "negate"))
